@@ -22,9 +22,14 @@ from .ops import Unsupported
 # Budgets are RESOURCE limits (deterministic: the verdict does not depend on machine load); the wall-clock values
 # are only backstops.  ~400k z3 rlimit units per second on an idle core of this sandbox.
 Z3_RLIMIT = int(os.environ.get('PYVC_Z3_RLIMIT', '6000000'))
-Z3_TIMEOUT_MS = int(os.environ.get('PYVC_Z3_TIMEOUT_MS', '150000'))
+Z3_TIMEOUT_MS = int(os.environ.get('PYVC_Z3_TIMEOUT_MS', '900000'))
 CVC5_RLIMIT = int(os.environ.get('PYVC_CVC5_RLIMIT', '400000'))
-CVC5_TIMEOUT_MS = int(os.environ.get('PYVC_CVC5_TIMEOUT_MS', '60000'))
+CVC5_TIMEOUT_MS = int(os.environ.get('PYVC_CVC5_TIMEOUT_MS', '300000'))
+# Solver results are memoised by the SHA-256 of the exact query text (+ solver versions and budgets) under .cache/smt.
+# The verification conditions themselves are regenerated from $REPO's working tree on every run; a changed body gives a
+# different query text and is solved afresh.  The cache directory is not committed (a fresh restore starts empty).
+CACHE_DIR = os.path.join(os.path.dirname(os.path.dirname(os.path.abspath(__file__))), '.cache', 'smt')
+USE_CACHE = os.environ.get('PYVC_NO_CACHE', '') == ''
 CVC5_BIN = '/usr/bin/cvc5'
 
 _MODULE_CACHE = {}
@@ -45,7 +50,41 @@ def module_loader(repo):
 
 
 # ------------------------------------------------------------------------------------------------ solving
+def _cache_key(smt2, expect):
+    import hashlib
+    h = hashlib.sha256()
+    h.update(('%s|%s|%s|%d|%d|%s\n' % (z3.get_version_string(), CVC5_BIN, expect, Z3_RLIMIT, CVC5_RLIMIT, 'v3')).encode())
+    h.update(smt2.encode())
+    return h.hexdigest()
+
+
 def _solve_one(job):
+    """Worker: memoised wrapper around the solver attempts."""
+    idx, smt2, expect, weakened = job
+    if not USE_CACHE:
+        return _solve_one_uncached(job)
+    key = _cache_key(smt2, expect)
+    path = os.path.join(CACHE_DIR, key[:2], key + '.json')
+    try:
+        with open(path) as fh:
+            d = json.load(fh)
+        return idx, d['verdict'], d['backend'] + '+memo', 0.0, d.get('reason', '')
+    except Exception:  # noqa
+        pass
+    out = _solve_one_uncached(job)
+    if out[1] in ('sat', 'unsat'):
+        try:
+            os.makedirs(os.path.dirname(path), exist_ok=True)
+            tmp = path + '.%d.tmp' % os.getpid()
+            with open(tmp, 'w') as fh:
+                json.dump({'verdict': out[1], 'backend': out[2], 'secs': out[3], 'reason': out[4]}, fh)
+            os.replace(tmp, path)
+        except Exception:  # noqa
+            pass
+    return out
+
+
+def _solve_one_uncached(job):
     """Worker: returns (index, verdict, backend, seconds, reason)."""
     idx, smt2, expect, weakened = job
     t0 = time.time()
